@@ -123,6 +123,10 @@ def compare(cpu, post, ignore=()):
             if (exp & ~cpu.cpsr_unknown) != (got & ~cpu.cpsr_unknown):
                 diffs.append((k, exp, got))
             continue
+        if k in cpu.unknown_bits and isinstance(exp, int) and isinstance(got, int):
+            if (exp ^ got) & ~cpu.unknown_bits[k]:
+                diffs.append((k, exp, got))
+            continue
         if got != exp:
             diffs.append((k, exp, got))
     for i, dev in enumerate(cpu.mems):
